@@ -228,6 +228,10 @@ func c11(tier string, args []string) int {
 		// a correctly encrypted deal whose AES-GCM nonce is 420 000 bytes long: the deal still fits
 		// into a board line; so must whatever the victim has to post about it
 		{"deal-with-a-nonce-of-420000-bytes", dpf.StateDkgDealsAwaitConfirmations, onlyV},
+		// the genuine deal under ANOTHER dealer index (the victim's own, or a third participant's):
+		// the machine files deals by the sender's name and trusts the index the sender wrote
+		{"deal-under-the-next-dealer-index", dpf.StateDkgDealsAwaitConfirmations, onlyV},
+		{"deal-under-the-dealer-index-after-next", dpf.StateDkgDealsAwaitConfirmations, onlyV},
 		{"commitments-too-short", dpf.StateDkgCommitsAwaitConfirmations, allButD},
 		{"commitments-too-long", dpf.StateDkgCommitsAwaitConfirmations, allButD},
 		{"commitments-empty", dpf.StateDkgCommitsAwaitConfirmations, allButD},
@@ -410,6 +414,24 @@ func runC11(r *kit.Run, n, t, D, V int, dv deviation, allOrders bool) {
 				case "deal-empty-json":
 					base := bls12381.NewBLS12381Suite(nil)
 					req.Deal, _ = ecies.Encrypt(base, w.Airs[V].M.GetPubKey(), []byte("{}"), base.Hash)
+				case "deal-under-the-next-dealer-index", "deal-under-the-dealer-index-after-next":
+					base := bls12381.NewBLS12381Suite(nil)
+					plain, derr := ecies.Decrypt(base, w.Airs[V].M.VerifSecKey(), req.Deal, base.Hash)
+					var dl dkgPedersen.Deal
+					if derr != nil || json.Unmarshal(plain, &dl) != nil || dl.Deal == nil {
+						r.Infra("%s: the genuine deal cannot be opened with the victim's key: %v", label, derr)
+					}
+					step := uint32(1)
+					if dv.Kind == "deal-under-the-dealer-index-after-next" {
+						step = 2
+					}
+					if step%uint32(w.N) == 0 {
+						unbuildable = true // (with two participants "after next" is the dealer itself)
+						break
+					}
+					dl.Index = (dl.Index + step) % uint32(w.N)
+					plain, _ = json.Marshal(&dl)
+					req.Deal, _ = ecies.Encrypt(base, w.Airs[V].M.GetPubKey(), plain, base.Hash)
 				case "deal-with-a-nonce-of-420000-bytes":
 					base := bls12381.NewBLS12381Suite(nil)
 					plain, derr := ecies.Decrypt(base, w.Airs[V].M.VerifSecKey(), req.Deal, base.Hash)
@@ -489,7 +511,7 @@ func runC11(r *kit.Run, n, t, D, V int, dv deviation, allOrders bool) {
 	}
 	res := run.Explore(r, func(s *worldx.State) {
 		for j := range s.Snap {
-			if k.C.Snapshot(s.Snap[j]).RoundState(run.Round) == string(sif.StateSigningIdle) {
+			if !unbuildable && k.C.Snapshot(s.Snap[j]).RoundState(run.Round) == string(sif.StateSigningIdle) {
 				r.Violation("C11/signing-ready-despite-"+dv.Kind, fmt.Sprintf("%s: node %d became signing-ready", label, j), trace(s))
 			}
 		}
